@@ -4,7 +4,20 @@ import json, os, subprocess, sys
 HERE = os.path.dirname(os.path.dirname(os.path.abspath(__file__)))
 
 # id -> (technique, level text, level note, design ref)
+SOLVE_NOTE = "Trusted: the dense f64 re-evaluation (compensated sums) in harness/src/{oracle,solve}.rs, the cone membership definitions there, and for PSD cones the harness' pure-Rust BLAS/LAPACK shim (self-tested in setup_cmd). Problems are small (n<=40, m<=90); defects needing thousands of variables or a particular BLAS are out of reach."
 CLAIMED = {
+ "C01": ("proptest-generated planted-feasible conic problems x settings; independent re-evaluation of the documented termination test on the user's data",
+         "Exploration: ~63k (quick) / 1.6M (thorough) generated problems with a planted strictly feasible primal-dual pair over all cone types, P forms, infinite-bound rows, bad scaling and a random settings point are solved; every Solved result is re-checked from solution.{x,s,z} alone against tol_feas / tol_gap_* and cone membership with an explicit rounding allowance.",
+         SOLVE_NOTE, "DESIGN.md §4 C01"),
+ "C02": ("proptest-generated planted-infeasible problems; Farkas certificate validity and the documented scale-dependent test re-evaluated on the user's data",
+         "Exploration: planted strongly primal-/dual-infeasible problems (plus feasible controls) over all cones, rescaled, under random settings; every Primal/DualInfeasible result must have z in K*, b'z<0 (s in K, q'x<0), NaN objectives and pass the documented test with kappa taken from the observer hook.",
+         SOLVE_NOTE, "DESIGN.md §4 C02"),
+ "C03": ("proptest-generated problems x stress settings reaching all 10 terminal statuses; reported figures recomputed from returned vectors",
+         "Exploration: feasible/infeasible/badly-scaled problems under stress settings (tiny max_iter, zero time limit, unreachable tolerances, regularisation/refinement off); obj_val, obj_val_dual, r_prim, r_dual, status/iterations consistency and the Almost* reduced-tolerance claims are re-derived independently. Evidence lists the per-status histogram.",
+         SOLVE_NOTE + " Iterates beyond 1e150 (overflowing plain sums of squares) are not judged.", "DESIGN.md §4 C03"),
+ "C04": ("proptest-generated boundary shapes, extreme magnitudes, limits and ill-formed dimensions under catch_unwind",
+         "Exploration: 150k (quick) / 4M (thorough) boundary-shape problems (m=0, no/empty/singleton cones, zero A/P, duplicates, 1e-324..1e300 magnitudes, infeasible/unbounded) x max_iter/time_limit grids must return a terminal status without panicking, within max_iter, with 0 iterations at time_limit=0; ill-formed dimensions must hit the documented construction panic.",
+         SOLVE_NOTE + " Hangs are bounded by max_iter; the watchdog yields exit 2, never a violation.", "DESIGN.md §4 C04"),
  "C12": ("exhaustive small-scope enumeration (patterns x orderings, all invalid permutation vectors n<=4) + proptest-generated matrices and update/refactor histories against a dense LDL' backward-error oracle",
          "Exploration: every triu pattern for n<=4 (5 in thorough) under every ordering, every non-permutation vector, and >200k generated matrices/histories are factored; each Ok result must satisfy the no-pivot backward-error bound, the stepwise pivot/regularisation rule, exact symbolic fill, inertia count, solve residual and refactor==fresh bitwise; each reject must be the documented error.",
          "Trusted: dense reference recurrences in harness/src/props/c12.rs; the standard gamma_n|L||D||L'| bound with constant 10(n+2); generic matrices with factor growth >1e12 are discarded (counted), strictly diagonally dominant ones never are.",
